@@ -70,6 +70,7 @@ type pathState struct {
 	hashes     []*hashApp
 	uniq       int
 	facts      factTab
+	binds      *bindTab
 	trueMemo   map[int]bool
 	concSplit  uint64 // total symbolic input bytes + slack: allocation sizes up to this are case-split
 }
@@ -110,6 +111,7 @@ type PathResult struct {
 func (e *Eng) assertPC(c *Term) {
 	e.path.npc++
 	e.path.facts.learn(c)
+	e.path.binds.learn(c, e.tb)
 	e.path.trueMemo[c.ID] = true
 	e.solver.Assert(c)
 }
@@ -131,6 +133,13 @@ func (e *Eng) Decide(c *Term) bool {
 	tb := e.tb
 	if p.trueMemo[c.ID] {
 		return true
+	}
+	c = p.binds.rewrite(c, tb)
+	if c.IsTrue() {
+		return true
+	}
+	if c.IsFalse() {
+		return false
 	}
 	if v, ok := p.facts.decide(c); ok {
 		return v
@@ -221,6 +230,13 @@ func (e *Eng) Assume(c *Term) {
 		panic(pathEnd{kind: endAssumeFalse})
 	}
 	p := e.path
+	c = p.binds.rewrite(c, e.tb)
+	if c.IsTrue() {
+		return
+	}
+	if c.IsFalse() {
+		panic(pathEnd{kind: endAssumeFalse})
+	}
 	if p.pos < len(p.prefix) || true {
 		// feasibility must be re-established even on replayed prefixes only if this
 		// assumption lies beyond the prefix; inside the prefix it was feasible before.
@@ -260,7 +276,7 @@ func (e *Eng) runPath(fn *ssa.Function, prefix []dec, hs *HarnessRun) (res *Path
 	e.steps = 0
 	e.depth = 0
 	mark := len(e.undo)
-	p := &pathState{prefix: append([]dec(nil), prefix...), names: map[string]int{}, unsatMemo: map[int]bool{}, facts: factTab{}, trueMemo: map[int]bool{}}
+	p := &pathState{prefix: append([]dec(nil), prefix...), names: map[string]int{}, unsatMemo: map[int]bool{}, facts: factTab{}, trueMemo: map[int]bool{}, binds: newBindTab()}
 	e.path = p
 	e.curHS = hs
 	e.pathFindings = nil
@@ -478,6 +494,7 @@ type HarnessSpec struct {
 	IncrMs       int
 	OneShotSec   int
 	NeedReach    []string // labels that some path must reach (vacuity guard)
+	Params       map[string]int // harness package variables set before the run (bounds)
 	ConcAlloc    bool     // case-split allocation sizes up to (symbolic input bytes + 64)
 }
 
@@ -629,6 +646,13 @@ func runHarness(ld *Loaded, prop string, spec HarnessSpec, known *KnownFindings,
 					if e == nil {
 						e = newEng(ld, spec, scratch)
 						e.initPkg(fn.Pkg)
+						for k, v := range spec.Params {
+							g, ok := fn.Pkg.Members[k].(*ssa.Global)
+							if !ok {
+								panic("harness parameter " + k + " is not a package variable")
+							}
+							*e.global(g) = e.tb.I64(int64(v))
+						}
 					}
 					res = e.runPath(fn, prefix, hs)
 				}()
